@@ -10,8 +10,11 @@ def _params(p):
         out.append((m.group(1).strip(), m.group(2)))
     return out
 
+SV = 'struct S_ZTSSt17basic_string_viewIDuSt11char_traitsIDuEE'
+
 def auto_models(j, skip=()):
     text, used = '', []
+    svinc = False
     for s in j['std_stubs']:
         q, n = s['qualified'], s['name']
         if n in skip:
@@ -29,6 +32,21 @@ def auto_models(j, skip=()):
                 body = 'return (unsigned long)%s < (unsigned long)%s;' % (a, b)
             text += '/* assumed: std::less<> orders scalars by value and pointers by address (as libstdc++ does) */\n%s %s(%s) { %s }\n' % (s['ret'], n, s['params'], body)
             used.append('std::less<> = value / address order')
+        svm = None
+        if q == 'std::operator==' and len(ps) == 2 and ps[0][0] == SV and ps[1][0] == SV:
+            svm = 'return sv_equal(%s, %s);' % (ps[0][1], ps[1][1])
+        elif q == 'std::operator<=>' and len(ps) == 2 and ps[0][0] == SV and ps[1][0] == SV:
+            svm = '%s r; __builtin_memset(&r, 0, sizeof r); *(signed char*)&r = (signed char)sv_cmp3(%s, %s); return r;' % (s['ret'], ps[0][1], ps[1][1])
+        elif q == 'std::basic_string_view<char8_t>::compare' and len(ps) == 2 and ps[1][0] == SV:
+            svm = 'return sv_cmp3(*(sv_t*)%s, %s);' % (ps[0][1], ps[1][1])
+        elif q in ('std::operator<', 'std::operator>', 'std::operator<=', 'std::operator>=') and len(ps) == 2 and 'strong_ordering' in ps[0][0] and '__unspec' in ps[1][0]:
+            svm = 'return *(signed char*)&%s %s 0;' % (ps[0][1], q[len('std::operator'):])
+        if svm:
+            if not svinc:
+                text += '#include "svmodel.h"\n'; svinc = True
+            text += '/* assumed: u8string_view comparison is bytewise lexicographic (svmodel.h) */\n%s %s(%s) { %s }\n' % (s['ret'], n, s['params'], svm)
+            used.append('u8string_view ==, <=>, compare = bytewise lexicographic order')
+            continue
         if q == 'std::char_traits<char8_t>::length' and len(ps) == 1:
             text += '/* assumed: char_traits::length = number of characters before the terminating NUL (strings of the library are short literals) */\n'
             text += '%s %s(%s) { unsigned long n = 0; while (n < 64 && %s[n] != 0) n++; __CPROVER_assert(n < 64, "char_traits::length model bound"); return n; }\n' % (s['ret'], n, s['params'], ps[0][1])
